@@ -181,6 +181,7 @@ var fromPlain func([]byte) string
 var undeclaredMarkup bool
 
 func c11JudgeDetect(c *fw.Ctx, kind string, x []byte, limit uint32) {
+	entry := pickEntry(c)
 	h := lib.Header(x, limit)
 	if len(h) == 0 {
 		return
@@ -194,11 +195,11 @@ func c11JudgeDetect(c *fw.Ctx, kind string, x []byte, limit uint32) {
 	if bin && c11BOM(h) == nil {
 		return
 	}
-	key := fw.InputKey(x, limit, "Detect")
-	c.Trace(func() (string, any) { return key, fw.MkInCase(kind, x, limit, "Detect", "") })
+	key := fw.InputKey(x, limit, entry)
+	c.Trace(func() (string, any) { return key, fw.MkInCase(kind, x, limit, entry, "") })
 	var m *mimetype.MIME
-	ok := c.Guard(key, func() any { return fw.MkInCase(kind, x, limit, "Detect", "panic") }, func() {
-		m = lib.Detect(x, limit)
+	ok := c.Guard(key, func() any { return fw.MkInCase(kind, x, limit, entry, "panic") }, func() {
+		m = detectEntry(x, limit, entry)
 	})
 	c.Eval(1)
 	if !ok {
@@ -219,7 +220,7 @@ func c11JudgeDetect(c *fw.Ctx, kind string, x []byte, limit uint32) {
 	c.Distinct("det|" + class + "|" + cs + "|" + c11Tail(h))
 	if why != "" {
 		c.Violate("untruthful-charset", key, fmt.Sprintf("%s; result %s; input %s limit %d", why, m.String(), fw.Quote(x, 80), limit),
-			fw.MkInCase(kind, x, limit, "Detect", why))
+			fw.MkInCase(kind, x, limit, entry, why))
 	}
 	if c.WantSample() && len(h) > 2 && c.Rand.Intn(30000) == 0 {
 		c.Sample(map[string]any{"header": fw.Quote(h, 60), "limit": limit, "reported_charset": cs, "oracle_class": class})
@@ -412,6 +413,9 @@ func init() {
 			if err != nil {
 				fmt.Println("bad payload:", err)
 				return
+			}
+			if ic.Entry != "" && ic.Entry != "charset.FromPlain" {
+				forcedEntry = ic.Entry
 			}
 			if ic.Entry == "charset.FromPlain" {
 				c11JudgePlain(c, ic.Kind, ic.In)
